@@ -63,4 +63,5 @@ f8434c2 C13
 75a507b C12
 001f011 C03 C04
 a3420f3 C17
+c6595f2 C01
 LIST
